@@ -703,6 +703,17 @@ func (i *AgentIPC) handleMembers(client *IPCClient, command string, seq uint64) 
 	return client.Send(&header, &resp)
 }
 
+// compileAnchored compiles a member filter so that it must match the whole
+// string. The pattern is validated on its own first: once pasted into the
+// anchoring template, a pattern that closes the group itself (e.g. "a)|(?:b")
+// would otherwise be accepted and escape the anchors.
+func compileAnchored(expr string) (*regexp.Regexp, error) {
+	if _, err := regexp.Compile(expr); err != nil {
+		return nil, err
+	}
+	return regexp.Compile(fmt.Sprintf("^(?:%s)$", expr))
+}
+
 func (i *AgentIPC) filterMembers(members []serf.Member, tags map[string]string,
 	status string, name string) ([]serf.Member, error) {
 
@@ -711,19 +722,19 @@ func (i *AgentIPC) filterMembers(members []serf.Member, tags map[string]string,
 	// Pre-compile all the regular expressions
 	tagsRe := make(map[string]*regexp.Regexp)
 	for tag, expr := range tags {
-		re, err := regexp.Compile(fmt.Sprintf("^(?:%s)$", expr))
+		re, err := compileAnchored(expr)
 		if err != nil {
 			return nil, fmt.Errorf("Failed to compile regex: %v", err)
 		}
 		tagsRe[tag] = re
 	}
 
-	statusRe, err := regexp.Compile(fmt.Sprintf("^(?:%s)$", status))
+	statusRe, err := compileAnchored(status)
 	if err != nil {
 		return nil, fmt.Errorf("Failed to compile regex: %v", err)
 	}
 
-	nameRe, err := regexp.Compile(fmt.Sprintf("^(?:%s)$", name))
+	nameRe, err := compileAnchored(name)
 	if err != nil {
 		return nil, fmt.Errorf("Failed to compile regex: %v", err)
 	}
